@@ -208,6 +208,13 @@ static ares_status_t ares_dns_write_rr_str(ares_buf_t          *buf,
     return ARES_EFORMERR;
   }
 
+  /* These fields are exposed as NULL-terminated strings, the parser
+   * (ares_buf_parse_dns_str()) only accepts printable ASCII for them.  Don't
+   * write what we would refuse to read back. */
+  if (!ares_str_isprint(str, len)) {
+    return ARES_EBADSTR;
+  }
+
   /* Write 1 byte length */
   status = ares_buf_append_byte(buf, (unsigned char)(len & 0xFF));
   if (status != ARES_SUCCESS) {
@@ -848,6 +855,11 @@ static ares_status_t ares_dns_write_rr_uri(ares_buf_t          *buf,
     return ARES_EFORMERR;
   }
 
+  /* Same rule as the parser */
+  if (!ares_str_isprint(target, ares_strlen(target))) {
+    return ARES_EBADSTR;
+  }
+
   return ares_buf_append(buf, (const unsigned char *)target,
                          ares_strlen(target));
 }
@@ -868,10 +880,14 @@ static ares_status_t ares_dns_write_rr_caa(ares_buf_t          *buf,
     return status; /* LCOV_EXCL_LINE: OutOfMemory */
   }
 
-  /* Tag */
+  /* Tag, required to be non-zero length (RFC 8659 Section 4.1) */
+  if (ares_strlen(ares_dns_rr_get_str(rr, ARES_RR_CAA_TAG)) == 0) {
+    return ARES_EFORMERR;
+  }
+
   status = ares_dns_write_rr_str(buf, rr, ARES_RR_CAA_TAG);
   if (status != ARES_SUCCESS) {
-    return status; /* LCOV_EXCL_LINE: OutOfMemory */
+    return status;
   }
 
   /* Value - binary! (remaining buffer */
